@@ -991,11 +991,16 @@ def read_index_dict_with_version(
         if len(signature) < 4:
             break
 
-        # Check if it's a valid extension signature (4 uppercase letters)
-        if not all(65 <= b <= 90 for b in signature):
-            # Not an extension, seek back
-            f.seek(-4, 1)
-            break
+        # Everything between the entries and the trailer is an extension. A
+        # signature that starts with an upper-case letter is optional; any
+        # other one changes the meaning of the entries and, like git, must
+        # be understood ("sdir") or the index be refused ("link": the
+        # entries are in a shared index). Do not step back and stop here:
+        # the four bytes have already gone into the checksum.
+        if not (65 <= signature[0] <= 90) and signature != SDIR_EXTENSION:
+            raise ValueError(
+                f"index uses {signature!r} extension, which we do not understand"
+            )
 
         # Read extension size
         size_data = f.read(4)
@@ -1222,7 +1227,8 @@ class Index:
             for ext in self._extensions:
                 # Skip extensions that have empty data
                 ext_data = ext.to_bytes()
-                if ext_data:
+                # The sparse-directory marker is its presence, it has no data
+                if ext_data or isinstance(ext, SparseDirExtension):
                     meaningful_extensions.append(ext)
 
             if self._skip_hash:
